@@ -297,6 +297,16 @@ func astClientFacts(file, sendFn, handlerFn string) (clientFacts, error) {
 					if connVar != "" && exprStr(x.Call.Fun) == connVar+".Close" {
 						cf.closesConn = true
 					}
+					if lit, ok := x.Call.Fun.(*ast.FuncLit); ok && connVar != "" {
+						// `defer func() { …; conn.Close() }()`
+						for _, st := range lit.Body.List {
+							if es, ok := st.(*ast.ExprStmt); ok {
+								if c, ok := es.X.(*ast.CallExpr); ok && exprStr(c.Fun) == connVar+".Close" {
+									cf.closesConn = true
+								}
+							}
+						}
+					}
 				case *ast.CallExpr:
 					// <mux>.Handle("…", <handlerFn>(<chan>))
 					if strings.HasSuffix(exprStr(x.Fun), ".Handle") && len(x.Args) == 2 {
@@ -331,6 +341,65 @@ func astClientFacts(file, sendFn, handlerFn string) (clientFacts, error) {
 				}
 				return true
 			})
+			// the deferred Close must be in force before anything else can end the function: between the dial and the `defer`
+			// only the dial's own error check (`if err != nil { … }`, no init statement) may return
+			if cf.closesConn {
+				dialIdx, deferIdx := -1, -1
+				for i, st := range fd.Body.List {
+					if as, ok := st.(*ast.AssignStmt); ok && len(as.Rhs) == 1 && dialIdx < 0 {
+						if c, ok := as.Rhs[0].(*ast.CallExpr); ok {
+							_, viaHelper := dialHelpers[exprStr(c.Fun)]
+							if strings.HasSuffix(exprStr(c.Fun), "DialNetworkTLS") || viaHelper {
+								dialIdx = i
+							}
+						}
+					}
+					if ds, ok := st.(*ast.DeferStmt); ok && deferIdx < 0 && connVar != "" {
+						closes := exprStr(ds.Call.Fun) == connVar+".Close"
+						if lit, ok := ds.Call.Fun.(*ast.FuncLit); ok {
+							ast.Inspect(lit.Body, func(k ast.Node) bool {
+								if c, ok := k.(*ast.CallExpr); ok && exprStr(c.Fun) == connVar+".Close" {
+									closes = true
+								}
+								return true
+							})
+						}
+						if closes {
+							deferIdx = i
+						}
+					}
+				}
+				if dialIdx < 0 || deferIdx < dialIdx {
+					cf.closesConn = false
+				} else {
+					for i := dialIdx + 1; i < deferIdx; i++ {
+						st := fd.Body.List[i]
+						hasReturn := false
+						ast.Inspect(st, func(k ast.Node) bool {
+							switch k.(type) {
+							case *ast.FuncLit:
+								return false
+							case *ast.ReturnStmt:
+								hasReturn = true
+							}
+							return true
+						})
+						if !hasReturn {
+							continue
+						}
+						ifs, ok := st.(*ast.IfStmt)
+						dialCheck := ok && ifs.Init == nil && i == dialIdx+1
+						if dialCheck {
+							if be, ok := ifs.Cond.(*ast.BinaryExpr); !ok || be.Op != token.NEQ || exprStr(be.Y) != "nil" {
+								dialCheck = false
+							}
+						}
+						if !dialCheck {
+							cf.closesConn = false
+						}
+					}
+				}
+			}
 			if capN, ok := made[handed]; ok && handed == received {
 				cf.ownChan = true
 				cf.buffered = capN >= 1
